@@ -1,9 +1,11 @@
 SPECIFICATION Spec
 CONSTANTS
-  SccFix = "fresh"
-  TfcChain = TRUE
+  SccFix = "forget"
+  TfcChain = FALSE
   MaxEpochs = 3
   MaxSets = 1
   MaxQueries = 2
-  Emitting = "terminal"
+  Emitting = "no"
+INVARIANT Terminates
+VIEW View
 CHECK_DEADLOCK FALSE
